@@ -38,7 +38,7 @@ class C11(Base):
     LEMMA_FILES = ["FluentProofs/Args.lean", "FluentProofs/BytesOrder.lean"]
     RULE = ("random set/get/iter/into/from_iter/fluent_args! histories over a 14-key alphabet (empty, non-ASCII, "
             "prefix-related, NUL) with borrowed and owned keys and 25 value tokens; a many-keys family (9-130 distinct keys in random, ascending or descending order, overwrites, every key and four absent ones looked up); thorough adds the exhaustive family "
-            "of <=5 sets over 4 keys followed by all gets and iter. Non-trivial = the history overwrites a key or "
+            "of <=5 sets over 4 keys followed by all gets and iter. The key pool includes keys that differ only by a leading sigil (`$a`/`a`), keys with equal first eight bytes and keys with equal 31-multiplier hashes (`Aa`/`BB`). Non-trivial = the history overwrites a key or "
             "inserts out of order (a set whose key is below an earlier key) and observes at least one get/iter; "
             "distinct = distinct case line.")
     EXPLANATION = ("Theorems: for every op list, the vector stays strictly sorted, get = last write, iter keys = set "
